@@ -174,8 +174,25 @@ JudgeCalc(Ws, r) ==
                    ELSE Verdict(r.id, FALSE, "value", c)
               ELSE Verdict(r.id, TRUE, IF c.ndef = 0 THEN "skip-undefined" ELSE "ok", c)
 \* canonicalisation (C10): same denotation, claimed for well-scoped presentations
+\* a sum may also range over a name its summand does not mention at all (it then counts that name's values): since
+\* the repair 54fadbb the library handles these, so they are part of C10's family; ranges that name a variable the
+\* summand binds itself, or only uses as a subscript, stay outside (statement and docstrings are silent about them)
+RECURSIVE Mentioned(_)
+Mentioned(e) ==
+  CASE e.t = "P" -> UNION {{v.n} \cup IvNames(v) : v \in TermVars(e)}
+    [] e.t = "M" -> UNION {Mentioned(e.es[i]) : i \in DOMAIN e.es}
+    [] e.t = "F" -> Mentioned(e.a) \cup Mentioned(e.b)
+    [] e.t = "S" -> ToSet(e.r) \cup Mentioned(e.e)
+    [] e.t = "Q" -> ToSet(e.dom) \cup ToSet(e.cod)
+    [] OTHER -> {}
+RECURSIVE LooseScoped(_)
+LooseScoped(e) ==
+  CASE e.t = "M" -> \A i \in DOMAIN e.es : LooseScoped(e.es[i])
+    [] e.t = "F" -> LooseScoped(e.a) /\ LooseScoped(e.b)
+    [] e.t = "S" -> (\A x \in ToSet(e.r) : x \in Free(e.e) \/ x \notin Mentioned(e.e)) /\ LooseScoped(e.e)
+    [] OTHER -> TRUE
 JudgeCanon(Ws, r) ==
-  IF ~WellScoped(r.pre) THEN Verdict(r.id, TRUE, "skip-not-well-scoped", NoCmp)
+  IF ~LooseScoped(r.pre) THEN Verdict(r.id, TRUE, "skip-not-well-scoped", NoCmp)
   ELSE IF HasQ(r.pre) THEN Verdict(r.id, TRUE, "skip-q-factor", NoCmp)
   ELSE CASE r.out.k = "exc" -> \* a presentation that denotes nothing (division by zero at every point) may be refused
                              IF Cmp(Ws, r.pre, r.pre).ndef = 0 THEN Verdict(r.id, TRUE, "raised-on-undefined", NoCmp)
